@@ -202,6 +202,12 @@ impl PartitionStorage for FilePartitionStorage {
             }
 
             partition.current_offset = last_segment.current_offset;
+            // An empty last segment that does not start at 0 was created by a roll-over (or after
+            // retention removed every segment): the last accepted offset is the one right before it.
+            if last_segment.size_bytes == 0 && last_segment.start_offset > 0 {
+                partition.current_offset = last_segment.start_offset - 1;
+                partition.should_increment_offset = true;
+            }
         }
 
         partition
